@@ -1,7 +1,6 @@
 //! Generic machinery shared by all property checks: choice tape, proptest driver, bounded
 //! exhaustive driver, panic / hang capture, replay files, known findings, evidence.
 
-use proptest::strategy::Strategy;
 use proptest::test_runner::{Config, RngAlgorithm, TestCaseError, TestError, TestRng, TestRunner};
 use serde_json::{json, Value};
 use std::cell::RefCell;
